@@ -869,6 +869,10 @@ func (c *Client) elicit(ctx context.Context, req *ElicitRequest) (*ElicitResult,
 		return nil, &jsonrpc.Error{Code: jsonrpc.CodeInvalidParams, Message: "client does not support elicitation"}
 	}
 
+	if req.Params == nil {
+		return nil, &jsonrpc.Error{Code: jsonrpc.CodeInvalidParams, Message: "missing required params for elicitation"}
+	}
+
 	// Validate the elicitation parameters based on the mode.
 	mode := req.Params.Mode
 	if mode == "" {
